@@ -138,7 +138,7 @@ def judge(chk, c, obs, dropped):
 
 def main(tier, seed, scale=1.0):
     chk = Check(PROP, tier, seed)
-    n = int((320 if tier == "quick" else 24000) * scale)
+    n = int((960 if tier == "quick" else 24000) * scale)
     cap = 16 if tier == "quick" else 30
     chk.rule = ("random struct/enum definitions with Clone educed (custom clone methods on some fields), a third also "
                 "Copy; clone() of every value, clone_from for every ordered pair of values (same and different "
